@@ -1005,6 +1005,7 @@ func (s *SecureChannel) sendAsyncWithTimeout(
 	}
 
 	var resp chan *MessageBody
+	var sent bool
 
 	if respRequired {
 		// register the handler if a callback was passed
@@ -1019,6 +1020,13 @@ func (s *SecureChannel) sendAsyncWithTimeout(
 
 		s.handlers[reqID] = resp
 		s.handlersMu.Unlock()
+
+		// release the handler again if the request cannot be sent
+		defer func() {
+			if !sent {
+				s.popHandler(reqID)
+			}
+		}()
 	}
 
 	chunks, err := m.EncodeChunks(instance.maxBodySize)
@@ -1056,6 +1064,7 @@ func (s *SecureChannel) sendAsyncWithTimeout(
 		debug.Printf("uasc %d/%d: send %T with %d bytes", s.c.ID(), reqID, req, len(chunk))
 	}
 
+	sent = true
 	return resp, nil
 }
 
